@@ -59,19 +59,40 @@ def option_reads(ctx):
     from ..astx import private_helper_owners
     repo = ctx.repo
     owners = {opt: private_helper_owners(repo, set(tab)) for opt, tab in OPTION_CONSUMERS.items()}
+    from ..astx import single_assignments, inline, params
+
+    def outer(qual):
+        """A nested function belongs to the function it is defined in (its name is a local of that function)."""
+        parts = qual.split(".")
+        while len(parts) > 2:
+            parent = ".".join(parts[:-1])
+            if repo.has(parent) and isinstance(repo.lookup(parent), ast.FunctionDef):
+                parts = parts[:-1]
+            else:
+                break
+        return ".".join(parts)
+
     for mname, qual, fn in repo.all_functions():
+        defs = single_assignments(fn)
+        oq = outer(qual)
+        ofn = repo.lookup(oq) if repo.has(oq) else fn
+        odefs = single_assignments(ofn) if ofn is not fn else defs
+        self_param = params(ofn)[0] if isinstance(ofn, ast.FunctionDef) and params(ofn) else None
+        in_algebra_class = oq.startswith("algebra.Algebra.")
         for n in walk_shallow(fn):
             if isinstance(n, ast.Attribute) and isinstance(n.ctx, ast.Load) and n.attr in OPTION_CONSUMERS:
-                base = un(n.value)
-                if not (base.endswith("algebra") or base in ("self", "alg", "algebra") or base.endswith(".div") or base == "mv.algebra"):
+                b = inline(inline(n.value, defs, depth=2), odefs, depth=2)
+                base = un(b)
+                is_algebra = base.endswith("algebra") or base.endswith(".div") or (in_algebra_class and base == self_param)
+                if not is_algebra:
                     continue
-                if n.attr in ("cse", "wrapper", "graded", "simp_func", "pretty_blade") and not (
-                        base.endswith("algebra") or base in ("alg", "algebra") or (base == "self" and mname == "algebra")):
+                if n.attr in ("cse", "wrapper", "graded", "simp_func", "pretty_blade") and base.endswith(".div"):
                     continue
-                c = f"{qual}#{n.attr}"
-                if qual in OPTION_CONSUMERS[n.attr]:
-                    ctx.ok(c, n, module=mname, reason=OPTION_CONSUMERS[n.attr][qual])
-                elif qual in owners[n.attr]:
+                c = f"{oq}#{n.attr}"
+                table = OPTION_CONSUMERS[n.attr]
+                if oq in table or qual in table:
+                    ctx.ok(c, n, module=mname, reason=table.get(oq) or table.get(qual))
+                elif oq in owners[n.attr]:
                     ctx.ok(c, n, module=mname, reason="private helper called only from confirmed consumers")
                 else:
                     raise Unknown(c, f"new reader of option {n.attr!r} ({un(n)}) - not in the confirmed consumer table; "
